@@ -61,11 +61,20 @@ def config():
             "junk": {p: [{"name": n, "cls": junk_cls(p, n)} for n in JUNK_SRC] for p in KEYS}}
 
 
+# a second rendering of the cases about a naming convention: v1 is the convention that leaves the names of the position
+# as they are written (snake_case for fields, PascalCase for variants) - it is still a value, and still wins / splits /
+# is equivalent like any other
+IDENTITY_V1 = {"struct": "snake_case", "variant": "snake_case", "enum": "PascalCase"}
+OVERRIDE = {}
+
+
 def entry_src(e):
     if e["key"] in JUNK_SRC:
         return JUNK_SRC[e["key"]]
     if e["val"] == "flag":
         return e["key"]
+    if e["val"] == "v1" and e["key"] in OVERRIDE:
+        return '%s = "%s"' % (e["key"], OVERRIDE[e["key"]])
     return '%s = "%s"' % (e["key"], VALUES[e["key"]][0 if e["val"] == "v1" else 1])
 
 
@@ -128,9 +137,16 @@ def run(tier):
         # the carrier of `content` brings its own #[ts(tag = ..)], which `as` / `type` do not go with
         cases = [c for c in cases if not (c["pos"] == "enum" and c["ctx"] in ("as", "type") and carrier("enum", c["A"], c["info"]).startswith("#[ts(tag"))]
         items = []
+        alt = [dict(c, alt=True) for c in cases if c["pos"] in IDENTITY_V1 and
+               any(e["key"] in ("rename_all", "rename_all_fields") and e["val"] == "v1" for l in c["A"] + c["B"] for e in l["entries"])]
+        cases = cases + alt
         for c in cases:
+            OVERRIDE.clear()
+            if c.get("alt"):
+                OVERRIDE.update({"rename_all": IDENTITY_V1[c["pos"]], "rename_all_fields": "snake_case"})
             items.append(carrier(c["pos"], c["A"], c["info"]))
             items.append(carrier(c["pos"], c["B"], c["info"]))
+        OVERRIDE.clear()
         res = macrodrv.expand(items, features=feats, tag="c10")
         for n, c in enumerate(cases):
             (ka, ta), (kb, tb) = res[2 * n], res[2 * n + 1]
